@@ -32,6 +32,9 @@ impl Prop for C04 {
     fn id(&self) -> &'static str {
         "C04"
     }
+    fn fuzz_target(&self) -> Option<&'static str> {
+        Some("fz_choices")
+    }
     fn stream_len(&self, _tier: Tier) -> usize {
         500
     }
